@@ -1,7 +1,7 @@
 (* Props/C20.v — ORDER BY sorts and SKIP/LIMIT slice it.
    Only statements, `exact`, and Print Assumptions. *)
 From Coq Require Import Sorting.Permutation Sorting.Sorted.
-From NDB Require Import Base.Bytes Cypher.Value Cypher.Compare Cypher.OrderBy Cypher.Compare_proofs Cypher.OrderBy_proofs.
+From NDB Require Import Base.Bytes Cypher.Value Cypher.Compare Cypher.OrderBy Cypher.Compare_proofs Cypher.Order_proofs Cypher.OrderBy_proofs.
 
 (* the result of ORDER BY is always a permutation of its input (any keys, any oracle) *)
 Definition C20_permutation_statement : Prop :=
@@ -64,16 +64,33 @@ Proof.
 Qed.
 Print Assumptions C20_skip_limit.
 
-(* known findings: the comparator is not transitive on temporal strings mixed with other
-   strings (a 3-cycle), nor on maps containing NaN *)
+(* known finding: the comparator is not transitive on temporal strings mixed with other
+   strings (a 3-cycle) *)
 Definition C20_temporal_refuted_statement : Prop :=
   exists tp a b d, order_cmp tp a b = Lt /\ order_cmp tp b d = Lt /\ order_cmp tp d a = Lt.
 Theorem C20_temporal_refuted : C20_temporal_refuted_statement.
 Proof. exact temporal_cycle. Qed.
 Print Assumptions C20_temporal_refuted.
 
-Definition C20_mapnan_refuted_statement : Prop :=
-  exists a b d, order_cmp no_temporal a b = Eq /\ order_cmp no_temporal b d = Eq /\ order_cmp no_temporal a d = Gt.
-Theorem C20_mapnan_refuted : C20_mapnan_refuted_statement.
-Proof. exact mapnan_not_transitive. Qed.
-Print Assumptions C20_mapnan_refuted.
+(* the comparator is a total preorder on ALL values that contain no temporal string at any depth:
+   nested lists and maps, node/relationship ids, paths, every i64, every double incl. NaN, nulls *)
+Definition C20_cmp_total_preorder_all_statement : Prop :=
+  forall tp,
+  (forall a b, og tp a -> og tp b -> order_cmp tp b a = CompOpp (order_cmp tp a b)) /\
+  (forall a, og tp a -> order_cmp tp a a = Eq) /\
+  (forall a b, og tp a -> og tp b -> cle' (order_cmp tp) a b = true \/ cle' (order_cmp tp) b a = true) /\
+  (forall a b d, og tp a -> og tp b -> og tp d ->
+     cle' (order_cmp tp) a b = true -> cle' (order_cmp tp) b d = true -> cle' (order_cmp tp) a d = true).
+Theorem C20_cmp_total_preorder_all : C20_cmp_total_preorder_all_statement.
+Proof. exact order_cmp_total_preorder_all. Qed.
+Print Assumptions C20_cmp_total_preorder_all.
+
+(* hence ORDER BY with any number of keys, each ASC or DESC, over such values returns a sorted
+   permutation — unconditionally outside K-C20-temporal *)
+Definition C20_order_by_sorted_statement : Prop :=
+  forall tp dirs rows, Forall (row_ok tp dirs) rows ->
+    StronglySorted (fun a b => cle (srow_cmp tp) a b = true) (order_by tp rows) /\
+    Permutation rows (order_by tp rows).
+Theorem C20_order_by_sorted : C20_order_by_sorted_statement.
+Proof. exact order_by_sorted_all. Qed.
+Print Assumptions C20_order_by_sorted.
